@@ -148,18 +148,21 @@ CLAIMED = {
                 text='Proved: every attribute __getitem__ copies to the child by reference is never '
                      'mutated in place (directly or through a view) by a public method '
                      '(SourceCatalog, ApertureStats, finder catalogs); SourceCatalog bounding boxes '
-                     'of row k come from row k\'s own slices. Commutation cat[idx].p == cat.p[idx] is checked bounded for every '
+                     'of row k come from row k\'s own slices; the per-source loops that compute the local '
+                     'background and the flux-fraction inputs carry no state from one row to the next '
+                     '(writes on only one branch of a conditional do not count as definite). Commutation cat[idx].p == cat.p[idx] is checked bounded for every '
                      'public property x index form x evaluation order (incl. one-row / one-pixel sources and a '
                      'zero Kron radius).',
                 note='init_attr tuples are literals (checked); commutation is bounded'),
-    'C09': dict(engine='coherence', technique=f'{_T} (getter purity, configuration immutability, '
-                                              f'per-call reset, descriptor invalidation) + {_B}',
+    'C09': dict(engine='coherence+effects', technique=f'{_T} (getter purity, configuration immutability, '
+                                              f'per-call reset, descriptor invalidation, shared-state ownership) + {_B}',
                 text='Proved per class (Background2D, profiles, apertures + descriptors, '
                      'PSFPhotometry, IterativePSFPhotometry, star finders, Ellipse, GriddedPSFModel, '
                      'LocalBackground): getters destroy nothing a later access reads (z3 on path '
                      'conditions), calls never rebind configuration, every field a call writes is '
                      'written before it is read; Ellipse.fit_image / fit_isophote leave nothing '
-                     'in the geometry except the two stores of known finding F22. Histories of <= 4 reads / <= 3 calls vs fresh '
+                     'in the geometry except the two stores of known finding F22; no GriddedPSFModel method '
+                     'writes in place into state its copy() shares (keyed interpolator cache excepted). Histories of <= 4 reads / <= 3 calls vs fresh '
                      'objects checked bounded.',
                 note='guards other than cache/None tests are opaque atoms; known finding F22'),
     'C10': dict(engine='effects', technique=f'{_T} (modifies = {{}} for ~800 public entry points) '
